@@ -15,7 +15,7 @@ PROP = dict(
     rule=("1-4 generated files (1-3 configuration blocks over goos/goarch/pkg/note/commit incl. deletions, optional unit metadata, 1-4 "
           "benchmarks x sub-name keys /size,/kind,-N x 1-5 units, 1-8 samples with ties and zeros), optional duplicate and labelled paths, "
           "and optional -table/-row/-col/-ignore projections (orders alpha/num/fixed), -filter from the filter grammar, -alpha, "
-          "-confidence; duplicate paths (labelled, or the same file once labelled and once bare), results before any configuration line, -table "", one metric in two spellings, >1024 distinct units (1 in 150), configuration values containing % verbs; each expected warning is compared together with the output row it refers to. Non-trivial = >=2 columns, >=2 rows, >=1 non-default flag and >=1 cell with a baseline. Distinct = distinct case JSON."),
+          "-confidence; duplicate paths (labelled, or the same file once labelled and once bare), results before any configuration line, -table "", one metric in two spellings, >1024 distinct units (1 in 150), configuration values containing % verbs, plain integers around 2^63, name parts that merely start like a projectable key; each expected warning is compared together with the output row it refers to. Non-trivial = >=2 columns, >=2 rows, >=1 non-default flag and >=1 cell with a baseline. Distinct = distinct case JSON."),
     assumptions=["benchmath computes correct per-sample statistics (C13)", "reference models in harness/lib reflect the documentation"],
     units=[
         R("rapid", "B", "./cmd/benchstat", "TestC14Rapid", (1200, 8), (12000, 16)),
